@@ -54,6 +54,11 @@ func DoubleQuotesToBackTick(str string) (string, error) {
 			}
 		case '"':
 			{
+				// a backtick next to a neighbouring identifier's backtick
+				// would read as an escaped backtick and merge the two
+				if i > 0 && str[i-1] == '`' {
+					buffer.WriteByte(' ')
+				}
 				buffer.WriteRune('`')
 				i++
 				r = '0'
@@ -61,6 +66,9 @@ func DoubleQuotesToBackTick(str string) (string, error) {
 					r = rune(str[i])
 					if r == '"' {
 						buffer.WriteRune('`')
+						if i+1 < len(str) && str[i+1] == '`' {
+							buffer.WriteByte(' ')
+						}
 						continue
 					}
 					if r == '\\' {
